@@ -189,7 +189,7 @@ fn leaves(f: &From, db: &[Table], out: &mut Vec<(usize, usize)>, width: &mut usi
         }
         // a derived table written in the case itself (engine `sql` generates them; this engine's generator does not):
         // one opaque leaf
-        From::Derived(_, _, items) => {
+        From::Derived(_, _, items, _) => {
             out.push((super::sql::DERIVED_LEAF, *width));
             *width += items.len();
         }
@@ -366,7 +366,7 @@ fn sql_from_plain(f: &From, db: &[Table], next: &mut usize, col: &dyn Fn(usize) 
             *next += 1;
             s
         }
-        From::Derived(inner, w, items) => {
+        From::Derived(inner, w, items, _) => {
             let s = super::sql::sql_derived(inner, w, items, *next, db);
             *next += 1;
             s
@@ -526,7 +526,7 @@ fn sql_from_derived(
                         *next += 1;
                         s
                     }
-                    From::Derived(inner, w, items) => {
+                    From::Derived(inner, w, items, _) => {
                         let s = super::sql::sql_derived(inner, w, items, *next, db);
                         *next += 1;
                         s
